@@ -1,4 +1,365 @@
-//! harness family c10 (stub until the family is built)
+//! harness family c10 (property C10): every accepted mkdsk configuration yields a valid empty volume; every other
+//! configuration is refused with an error and nothing is written.
+//!
+//! The real `a2kit::commands::mkdsk::mkdsk` is called in-process with `clap::ArgMatches` built by the real CLI
+//! definition (`/repo/src/cli.rs` is compiled into this harness as module `a2cli`, the value lists of `--os`, `--kind`,
+//! `--type`, `--wrap` are read back from it), under `guarded` (catch_unwind), writing into a private temp directory.
+//!
+//! Streams (case index `idx` is the position in the concatenation, stable for a given tier):
+//!   A  the full cross product os x kind x type x (no wrap | each wrap) x boot, one valid volume argument per OS,
+//!      the image type's own extension                                   -- always complete (12 880 today)
+//!   B  every volume class x every (os,kind,type,wrap) whose (kind,type,wrap) some OS accepted in A
+//!      (quick: boot=false, plus boot=true for the OSes that accepted with boot; thorough: the whole cross product)
+//!   C  extension classes on every configuration accepted in A
+//!   D  destination already exists: every configuration accepted in A and every 97th refused one
+//! For each case: `Q c10 decide …` (model vs implementation: outcome class, file written?, and for accepted ones
+//! image type, file system, byte capacity, block size, block count, free blocks as reported after reloading the file),
+//! and the direct oracles `c10-no-panic`, `c10-refusal-writes-nothing`, `c10-valid-empty-volume`.
 use crate::util::*;
+use a2kit::img::DiskKind;
+use std::str::FromStr;
 
-pub fn run(_ctx: &mut Ctx) {}
+#[allow(dead_code)]
+#[path = "/repo/src/cli.rs"]
+mod a2cli;
+
+thread_local! { static LAST_PANIC_TL: std::cell::RefCell<String> = std::cell::RefCell::new(String::new()); }
+
+/// panic capture per thread (the cases are evaluated by a pool of worker threads)
+fn install_tl_hook() {
+    std::panic::set_hook(Box::new(|info| {
+        let loc = match info.location() { Some(l) => format!("{}:{}", l.file(), l.line()), None => "?".to_string() };
+        let msg = if let Some(s) = info.payload().downcast_ref::<&str>() { s.to_string() }
+            else if let Some(s) = info.payload().downcast_ref::<String>() { s.clone() } else { "?".to_string() };
+        LAST_PANIC_TL.with(|c| *c.borrow_mut() = format!("{} [{}]", loc, msg.replace('\n', " ").replace('\t', " ")));
+    }));
+}
+fn guarded_tl<T>(f: impl FnOnce() -> T) -> Result<T, String> {
+    match std::panic::catch_unwind(std::panic::AssertUnwindSafe(f)) {
+        Ok(v) => Ok(v),
+        Err(_) => Err(LAST_PANIC_TL.with(|c| c.borrow().clone())),
+    }
+}
+
+/// everything one case emits, in order; produced by a worker, written by the main thread in index order
+#[derive(Default)]
+struct Emit { class: String, counts: Vec<String>, oracles: Vec<(bool, String, String, String)>, q: (String, String), canon: Vec<u8>, nontrivial: bool, sample: Option<String> }
+
+fn flush(ctx: &mut Ctx, e: &Emit) {
+    for k in &e.counts { ctx.out.count(k); }
+    for (pass, name, sig, case) in &e.oracles { ctx.out.oracle(*pass, name, sig, case); }
+    ctx.out.q(&e.q.0, &e.q.1);
+    ctx.out.case(&e.canon, e.nontrivial);
+    if let Some(s) = &e.sample { ctx.out.sample(s); }
+}
+
+/// evaluate jobs on a pool of threads; results come back in job order
+fn par_eval(dir: &std::path::Path, jobs: &[(usize, Cfg, &'static str)]) -> Vec<Emit> {
+    let n = jobs.len();
+    let next = std::sync::atomic::AtomicUsize::new(0);
+    let slots: Vec<std::sync::Mutex<Option<Emit>>> = (0..n).map(|_| std::sync::Mutex::new(None)).collect();
+    let threads = std::thread::available_parallelism().map(|x| x.get()).unwrap_or(4).clamp(2, 12);
+    std::thread::scope(|sc| {
+        for _ in 0..threads {
+            sc.spawn(|| loop {
+                let i = next.fetch_add(1, std::sync::atomic::Ordering::SeqCst);
+                if i >= n { break; }
+                let (idx, c, stream) = &jobs[i];
+                let e = eval(dir, *idx, c, stream);
+                *slots[i].lock().unwrap() = Some(e);
+            });
+        }
+    });
+    slots.into_iter().map(|m| m.into_inner().unwrap().expect("job result")).collect()
+}
+
+fn values(arg: &str) -> Vec<String> {
+    let cli = a2cli::build_cli();
+    let sub = cli.find_subcommand("mkdsk").expect("mkdsk subcommand");
+    for a in sub.get_arguments() {
+        if a.get_id().as_str() == arg {
+            return a.get_possible_values().iter().map(|p| p.get_name().to_string()).collect();
+        }
+    }
+    panic!("mkdsk has no argument {}", arg)
+}
+
+/// first element of `file_extensions()` of the image type
+fn ext_for(typ: &str) -> &'static str {
+    match typ { "d13" => "d13", "do" => "do", "po" => "po", "woz1" => "woz", "woz2" => "woz", "imd" => "imd", "img" => "img",
+        "2mg" => "2mg", "nib" => "nib", "td0" => "td0", _ => "bin" }
+}
+
+fn valid_volume(os: &str) -> Option<&'static str> {
+    match os { "dos32" | "dos33" => Some("254"), "prodos" => Some("NEW.DISK"), "pascal" => Some("BLANK"), _ => None }
+}
+
+/// volume names / numbers at the edges of the legal ranges of the five file systems
+const VOLUMES: [Option<&str>; 34] = [None, Some(""), Some("0"), Some("1"), Some("254"), Some("255"), Some("256"), Some("+1"), Some("007"), Some("-1"),
+    Some("A"), Some("ABCDEFG"), Some("ABCDEFGH"), Some("ABCDEFGH.IJK"), Some("ABCDEFGHI.JK"), Some("ABCDEFGH.IJKL"), Some("A.B.C"),
+    Some("ABCDEFGHIJK"), Some("ABCDEFGHIJKL"), Some("ABCDEFGHIJKLMNO"), Some("ABCDEFGHIJKLMNOP"), Some("new.disk"),
+    Some("NEW_DISK"), Some("NEW DISK"), Some("A:B"), Some("A/B"), Some(".ABC"), Some("1ABC"), Some("\u{c9}A"), Some("A\u{7}B"),
+    Some("A*B"), Some("A$B"), Some("A+B"), Some("A#B")];
+
+const EXTS: [&str; 17] = ["2mg", "2img", "dsk", "d13", "do", "nib", "nb2", "po", "woz", "imd", "td0", "img", "ima", "DSK", "Woz", "xyz", ""];
+
+#[derive(Clone)]
+struct Cfg { os: String, kind: String, typ: String, wrap: Option<String>, boot: bool, vol: Option<String>, ext: String, dest_exists: bool }
+
+impl Cfg {
+    fn request(&self) -> String {
+        format!("c10 decide {} {} {} {} {} {} {} {}", self.os, self.kind, self.typ, self.wrap.clone().unwrap_or("none".to_string()),
+            self.boot as u8, match &self.vol { None => "none".to_string(), Some(v) => hx(v.as_bytes()) }, hx(self.ext.as_bytes()), self.dest_exists as u8)
+    }
+    fn describe(&self, idx: usize) -> String {
+        format!("idx={} a2kit mkdsk -o {} -k {} -t {}{}{}{} -d x.{}{}", idx, self.os, self.kind, self.typ,
+            match &self.wrap { Some(w) => format!(" -w {}", w), None => String::new() }, if self.boot { " -b" } else { "" },
+            match &self.vol { Some(v) => format!(" --volume={:?}", v), None => String::new() }, self.ext,
+            if self.dest_exists { " (destination exists)" } else { "" })
+    }
+}
+
+const MARKER: &[u8] = b"pre-existing destination file, must survive";
+
+/// returns (class, error text or panic site)
+fn run_mkdsk(path: &std::path::Path, c: &Cfg) -> (String, String) {
+    let _ = std::fs::remove_file(path);
+    if c.dest_exists { std::fs::write(path, MARKER).expect("marker"); }
+    let mut args: Vec<String> = vec!["a2kit".into(), "mkdsk".into(), "-o".into(), c.os.clone(), "-k".into(), c.kind.clone(), "-t".into(), c.typ.clone(),
+        "-d".into(), path.to_string_lossy().to_string()];
+    if let Some(w) = &c.wrap { args.push("-w".into()); args.push(w.clone()); }
+    if c.boot { args.push("-b".into()); }
+    if let Some(v) = &c.vol { args.push(format!("--volume={}", v)); }
+    let matches = match a2cli::build_cli().try_get_matches_from(args) { Ok(m) => m, Err(e) => return ("cli".to_string(), e.to_string()) };
+    let sub = matches.subcommand_matches("mkdsk").expect("sub").clone();
+    let r = guarded_tl(|| a2kit::commands::mkdsk::mkdsk(&sub).map_err(|e| e.to_string()));
+    match r { Ok(Ok(())) => ("ok".to_string(), String::new()), Ok(Err(e)) => ("err".to_string(), e), Err(p) => ("panic".to_string(), p) }
+}
+
+fn type_name(t: &str) -> &'static str {
+    match t { "d13" => "D13", "do" => "DO", "po" => "PO", "img" => "IMG", "woz1" => "WOZ1", "woz2" => "WOZ2", "imd" => "IMD", "2mg" => "DOT2MG", "nib" => "NIB", "td0" => "TD0", _ => "?" }
+}
+fn fs_short(n: &str) -> &'static str {
+    match n { "a2 dos" => "dos", "prodos" => "prodos", "a2 pascal" => "pascal", "cpm" => "cpm", "fat" => "fat", _ => "?" }
+}
+fn fs_of_os(os: &str) -> &'static str {
+    match os { "dos32" | "dos33" => "dos", "prodos" => "prodos", "pascal" => "pascal", "cpm2" | "cpm3" => "cpm", "fat" => "fat", _ => "?" }
+}
+
+/// geometry of a disk kind: (512-byte data blocks, description); kinds with the same geometry differ at most in the
+/// form-factor tag (3 inch vs 5.25 inch) or in being a logical block device of the same size
+fn geometry(k: &DiskKind) -> (usize, String) {
+    match k {
+        DiskKind::Unknown => (0, "unknown".to_string()),
+        DiskKind::LogicalBlocks(_) => {
+            let s = k.to_string();
+            let n: usize = s.split_whitespace().filter_map(|w| w.parse().ok()).next().unwrap_or(0);
+            (n, format!("{} blocks", n))
+        }
+        DiskKind::LogicalSectors(l) | DiskKind::D3(l) | DiskKind::D35(l) | DiskKind::D525(l) | DiskKind::D8(l) => {
+            let s = l.to_string();
+            let ssz: usize = s.rsplit('/').next().and_then(|x| x.parse().ok()).unwrap_or(1);
+            let cap = if ssz == 524 { l.byte_capacity() / 524 * 512 } else { l.byte_capacity() };
+            (cap / 512, format!("{} tracks {} sides {} zones {} bytes {}", l.track_count(), l.sides(), l.zones(), l.byte_capacity(), s))
+        }
+    }
+}
+
+struct Reload { answer: String, problems: Vec<String> }
+
+/// reload the written file and state the property directly
+fn check_volume(path: &std::path::Path, c: &Cfg, out: &mut Emit) -> Reload {
+    let p = path.to_string_lossy().to_string();
+    let mut problems: Vec<String> = Vec::new();
+    let c2 = c.clone();
+    let r = guarded_tl(|| -> Result<(String, Vec<String>, Vec<String>), String> {
+        let mut probs: Vec<String> = Vec::new();
+        let mut counts: Vec<String> = Vec::new();
+        let mut d = a2kit::create_fs_from_file(&p).map_err(|e| format!("reload-failed ({})", e))?;
+        let st = d.stat().map_err(|e| format!("stat-failed ({})", e))?;
+        let cat = d.catalog_to_vec("/").map_err(|e| format!("catalog-failed ({})", e))?;
+        let (typ, kind, cap) = { let img = d.get_img(); (img.what_am_i().to_string(), img.kind(), img.byte_capacity()) };
+        let total = st.block_end - st.block_beg;
+        let answer = format!("type={} fs={} cap={} bs={} total={} free={}", type_name(&typ), fs_short(&st.fs_name), cap, st.block_size, total, st.free_blocks);
+        if typ != c2.typ { probs.push(format!("reload-type-differs ({})", typ)); }
+        if fs_short(&st.fs_name) != fs_of_os(&c2.os) { probs.push(format!("reload-fs-differs ({})", st.fs_name)); }
+        // the disk kind
+        let mut want = DiskKind::from_str(&c2.kind).map_err(|_| "kind-unparsable".to_string())?;
+        if c2.os == "dos32" && want == a2kit::img::names::A2_DOS33_KIND { want = a2kit::img::names::A2_DOS32_KIND; }
+        if kind == want { counts.push("kind:exact".to_string()); }
+        else {
+            let (gw, dw) = geometry(&want);
+            let (gk, dk) = geometry(&kind);
+            let logical = matches!(kind, DiskKind::LogicalBlocks(_)) || matches!(want, DiskKind::LogicalBlocks(_));
+            if logical && gw == gk && gw > 0 { counts.push("kind:same-size-block-device".to_string()); }
+            else if !logical && dw == dk { counts.push("kind:same-layout-other-form-factor".to_string()); }
+            else { probs.push(format!("reload-kind-differs (wanted {} / {}, got {} / {})", want, dw, kind, dk)); }
+        }
+        if !cat.is_empty() { probs.push(format!("catalog-not-empty ({} rows)", cat.len())); }
+        // free space consistent with the capacity: not more than there is, and at least 70% of the medium
+        if st.free_blocks > total || total * st.block_size > cap || st.free_blocks * st.block_size * 100 < cap * 70 {
+            probs.push(format!("free-inconsistent (free {} of {} blocks of {} bytes, capacity {})", st.free_blocks, total, st.block_size, cap));
+        }
+        // the figure each formatter must arrive at: DOS 3.x keeps track 0, the catalog track and (bootable) two more
+        // tracks; ProDOS keeps 2 boot + 4 directory blocks + the bitmap; Pascal keeps 6 blocks; CP/M keeps at most the
+        // 16 blocks of AL0/AL1; FAT clusters are all data
+        let fs = fs_short(&st.fs_name);
+        let exact_ok = match fs {
+            "dos" => st.free_blocks == (35 - 2 - if c2.boot { 2 } else { 0 }) * (total / 35),
+            "prodos" => st.free_blocks + 6 + 1 + total / 4096 == total,
+            "pascal" => st.free_blocks + 6 == total,
+            "cpm" => st.free_blocks < total && st.free_blocks + 16 >= total,
+            "fat" => st.free_blocks == total,
+            _ => false };
+        if !exact_ok { probs.push(format!("free-inconsistent (free {} of {} blocks is not the figure for an empty {} volume)", st.free_blocks, total, fs)); }
+        // the label
+        if let Some(v) = &c2.vol {
+            let expect_label = match c2.os.as_str() { "dos32" | "dos33" => u8::from_str_radix(v, 10).ok().map(|x| x.to_string()), "prodos" | "pascal" => Some(v.to_uppercase()),
+                "cpm3" | "fat" if !v.is_empty() => Some(v.to_uppercase()), _ => None };
+            if let Some(l) = expect_label { if st.label.to_uppercase() != l { probs.push(format!("label-differs ({:?} for {:?})", st.label, v)); } }
+        }
+        // a first file
+        let data: Vec<u8> = (0..300u32).map(|i| (i * 7 + 3) as u8).collect();
+        match d.bsave("HELLO", &data, Some(768), None) {
+            Err(e) => probs.push(format!("first-file-refused ({})", e)),
+            Ok(_) => {
+                a2kit::save_img(&mut d, &p).map_err(|e| format!("save-failed ({})", e))?;
+                let mut d2 = a2kit::create_fs_from_file(&p).map_err(|e| format!("reload-after-put-failed ({})", e))?;
+                match d2.bload("HELLO") {
+                    Err(e) => probs.push(format!("first-file-lost ({})", e)),
+                    Ok((_, got)) => {
+                        if !(got.len() >= data.len() && got[0..data.len()] == data[..] && got.len() < data.len() + st.block_size.max(128)) {
+                            probs.push(format!("first-file-differs (got {} bytes)", got.len()));
+                        }
+                    }
+                }
+                let cat2 = d2.catalog_to_vec("/").map_err(|e| format!("catalog-after-put-failed ({})", e))?;
+                if cat2.len() != 1 { probs.push(format!("catalog-after-put ({} rows)", cat2.len())); }
+                let st2 = d2.stat().map_err(|e| format!("stat-after-put-failed ({})", e))?;
+                if st2.free_blocks >= st.free_blocks { probs.push("free-not-reduced-by-put".to_string()); }
+            }
+        }
+        Ok((answer, probs, counts))
+    });
+    let answer = match r {
+        Ok(Ok((a, probs, counts))) => { for k in counts { out.counts.push(k); } problems.extend(probs); a }
+        Ok(Err(e)) => { problems.push(e.clone()); e.split(' ').next().unwrap_or("reload-failed").to_string() }
+        Err(pn) => { problems.push(format!("reload-panic ({})", pn)); "reload-panic".to_string() }
+    };
+    Reload { answer, problems }
+}
+
+fn eval(dir: &std::path::Path, idx: usize, c: &Cfg, stream: &str) -> Emit {
+    let mut em = Emit::default();
+    let path = dir.join(format!("c{}.{}", idx, c.ext));
+    let (class, detail) = run_mkdsk(&path, c);
+    let exists = path.exists();
+    let untouched = c.dest_exists && std::fs::read(&path).map(|b| b == MARKER).unwrap_or(false);
+    let wrote = if c.dest_exists { !untouched } else { exists };
+    let case = c.describe(idx);
+    em.counts.push(format!("{}:{}", stream, class));
+    // direct oracles
+    // panic site without the checkout prefix and the line number, so that it can serve as a finding key
+    let site = panic_site(&detail);
+    let site = site.rsplit_once(':').map(|x| x.0.to_string()).unwrap_or(site);
+    let site = match site.find("/src/") { Some(i) => site[i + 1..].to_string(), None => site };
+    em.oracles.push((class != "panic", "c10-no-panic".into(), format!("c10/panic/{}", site), format!("{} => panic {}", case, detail)));
+    if class != "ok" {
+        em.oracles.push((!wrote, "c10-refusal-writes-nothing".into(), format!("c10/{}/{}/{}/file-written-on-refusal", c.os, c.kind, c.typ), format!("{} => {} but the destination was written", case, class)));
+    }
+    let mut answer = format!("{} {}", class, if wrote { "wrote" } else { "nowrite" });
+    if class == "ok" {
+        if !wrote {
+            em.oracles.push((false, "c10-valid-empty-volume".into(), format!("c10/{}/{}/{}/no-file", c.os, c.kind, c.typ), format!("{} => ok but no file", case)));
+        } else {
+            let rl = check_volume(&path, c, &mut em);
+            answer = format!("{} {}", answer, rl.answer);
+            if rl.problems.is_empty() {
+                em.oracles.push((true, "c10-valid-empty-volume".into(), "-".into(), case.clone()));
+            }
+            for p in &rl.problems {
+                let what = p.split(' ').next().unwrap_or("problem");
+                em.oracles.push((false, "c10-valid-empty-volume".into(), format!("c10/{}/{}/{}/{}", c.os, c.kind, c.typ, what), format!("{} => {}", case, p)));
+            }
+        }
+    }
+    let _ = std::fs::remove_file(&path);
+    em.q = (c.request(), answer.clone());
+    em.canon = c.request().into_bytes();
+    em.nontrivial = class == "ok" || c.vol.is_some() || stream != "A";
+    if class == "ok" && stream == "A" { em.sample = Some(format!("{} => {}", case, answer)); }
+    em.class = class;
+    em
+}
+
+pub fn run(ctx: &mut Ctx) {
+    let oses = values("os"); let kinds = values("kind"); let types = values("type"); let wraps = values("wrap");
+    let dir = std::env::temp_dir().join(format!("a2v-c10-{}-{}", std::process::id(), ctx.seed));
+    std::fs::create_dir_all(&dir).expect("temp dir");
+    let mut wl: Vec<Option<String>> = vec![None]; for w in &wraps { wl.push(Some(w.clone())); }
+    let thorough = ctx.tier_thorough;
+    let mut idx = 0usize;
+    // results of stream A, needed to build B, C, D
+    let mut accepted: Vec<Cfg> = Vec::new();
+    let mut refused: Vec<Cfg> = Vec::new();
+    let mut live_triples: std::collections::BTreeSet<(String, String, String)> = std::collections::BTreeSet::new();
+    let mut boot_os: std::collections::BTreeSet<String> = std::collections::BTreeSet::new();
+
+    install_tl_hook();
+    // ---- A: the complete cross product
+    let mut jobs: Vec<(usize, Cfg, &'static str)> = Vec::new();
+    for os in &oses { for kind in &kinds { for typ in &types { for wrap in &wl { for boot in [false, true] {
+        let c = Cfg { os: os.clone(), kind: kind.clone(), typ: typ.clone(), wrap: wrap.clone(), boot, vol: valid_volume(os).map(|s| s.to_string()),
+            ext: ext_for(typ).to_string(), dest_exists: false };
+        idx += 1;
+        jobs.push((idx, c, "A"));
+    }}}}}
+    // the later streams depend on what A found, so a replay of a later index still evaluates A (silently)
+    let res = par_eval(&dir, &jobs);
+    for ((i, c, _), e) in jobs.iter().zip(res.iter()) {
+        if ctx.out.wants(*i) { flush(ctx, e); }
+        if e.class == "ok" {
+            accepted.push(c.clone());
+            live_triples.insert((c.kind.clone(), c.typ.clone(), c.wrap.clone().unwrap_or_default()));
+            if c.boot { boot_os.insert(c.os.clone()); }
+        } else if !c.boot { refused.push(c.clone()); }
+    }
+    ctx.out.count_n("A:configurations", idx as u64);
+    ctx.out.count_n("A:complete-cross-product", 1);
+    // ---- B: volume classes
+    let mut jobs: Vec<(usize, Cfg, &'static str)> = Vec::new();
+    for os in &oses { for kind in &kinds { for typ in &types { for wrap in &wl {
+        let live = live_triples.contains(&(kind.clone(), typ.clone(), wrap.clone().unwrap_or_default()));
+        if !live && !thorough { continue; }
+        for boot in [false, true] {
+            if boot && !thorough && !boot_os.contains(os) { continue; }
+            for v in VOLUMES.iter() {
+                idx += 1;
+                if !ctx.out.wants(idx) { continue; }
+                let c = Cfg { os: os.clone(), kind: kind.clone(), typ: typ.clone(), wrap: wrap.clone(), boot, vol: v.map(|s| s.to_string()), ext: ext_for(typ).to_string(), dest_exists: false };
+                jobs.push((idx, c, "B"));
+            }
+        }
+    }}}}
+    // ---- C: extension classes on accepted configurations
+    for c0 in &accepted { for e in EXTS.iter() {
+        idx += 1;
+        if !ctx.out.wants(idx) { continue; }
+        let mut c = c0.clone(); c.ext = e.to_string();
+        jobs.push((idx, c, "C"));
+    }}
+    // ---- D: destination exists
+    for (i, c0) in accepted.iter().chain(refused.iter()).enumerate() {
+        if i >= accepted.len() && (i - accepted.len()) % 97 != 0 { continue; }
+        idx += 1;
+        if !ctx.out.wants(idx) { continue; }
+        let mut c = c0.clone(); c.dest_exists = true;
+        jobs.push((idx, c, "D"));
+    }
+    for chunk in jobs.chunks(20000) {
+        let res = par_eval(&dir, chunk);
+        for e in &res { flush(ctx, e); }
+    }
+    ctx.out.count_n("total-cases", idx as u64);
+    let _ = std::fs::remove_dir_all(&dir);
+}
